@@ -33,7 +33,7 @@ BUDGET = {"quick": 40.0, "thorough": 420.0}
 
 def shards(tier, seed):
     n = 16
-    mult = 1 if tier == "quick" else 12
+    mult = 1 if tier == "quick" else 36
     out = []
     for i in range(n):
         out.append({"mode": "mixed", "n_text": 2500 * mult, "n_wire": 1200 * mult, "n_comp": 250 * mult,
